@@ -2,7 +2,7 @@ SPECIFICATION AimSpec
 CONSTANTS
   Subs = {"p1", "p2", "n"}
   OptSets <- OptAll
-  MaxPub = 2
+  MaxPub = 4
   MaxFaults = 1
   MaxTicks = 8
   MaxResub = 0
